@@ -119,6 +119,30 @@ pub fn check(cx: &Cx, rep: &mut Report) {
             }
         }
     }
+    // the service registry is a strong handle too: a registry-spawned instance that nobody stops, replaces or
+    // unregisters keeps running although every client handle is gone (judged before the harness' cleanup phase)
+    let settled = ix.phase("settled").unwrap_or(u64::MAX);
+    for k in [1u32, 2] {
+        let tag = 9000 + k;
+        let touched = ix.ops.iter().any(|o| o.executed() && (o.tag == tag || cx.prog.actors.iter().any(|d| d.k as u32 == k && d.tag == o.tag)) && matches!(o.op, OpK::Stop | OpK::Halt | OpK::Unregister | OpK::Replace | OpK::Register | OpK::SpawnRegister | OpK::Restart))
+            || ix.ops.iter().any(|o| o.arg == k as u64 && matches!(o.op, OpK::Unregister | OpK::Replace | OpK::Register))
+            || ix.ev.iter().any(|e| matches!(&e.k, K::Effect { what, .. } if *what == "ctx_stop" || *what == "reap_stop") || matches!(&e.k, K::Fault { .. }));
+        if touched {
+            continue;
+        }
+        for task in ix.tasks_of_tag.get(&tag).cloned().unwrap_or_default() {
+            rep.premise("C05.R1.registry_keeps_alive");
+            let client_refs_gone = ix.ev.iter().filter(|e| matches!(&e.k, K::RefGone { tag: t, .. } if *t == tag)).count() > 0;
+            if client_refs_gone {
+                nontrivial = true;
+            }
+            if let Some((end, _, how)) = ix.task_end.get(&task) {
+                if *end < settled {
+                    rep.fail(P, "R1", "registered_service_terminated", format!("service instance (actor task {task}, type {k}) terminated ({how}) at #{end} although it was registered and nobody stopped, replaced or unregistered it"), vec![*end]);
+                }
+            }
+        }
+    }
     // a parent's child list is a strong handle too: a child must not terminate while its parent holds it
     // (same evidence as C16.R1, reported here under the keep-alive property)
     let mut sub = Report::default();
